@@ -73,6 +73,8 @@ func t3Body(s HarnessSpec) (func(x *gosym.Exec), error) {
 		return gosym.T3StructSyntax(p, s.T3Native), nil
 	case "mapkey":
 		return gosym.T3MapKeyRange(p, "map_key_u32", s.T3Bits, s.T3Native), nil
+	case "slice":
+		return gosym.T3SliceDecode(p), nil
 	case "array":
 		return gosym.T3ArrayDecode(p, s.T3Bits), nil
 	case "encbuf":
